@@ -196,6 +196,8 @@ namespace cppcms {
 								else if(position_ == boundary_size) {
 									state_ = expecting_one_crlf_or_eof;
 									position_ = 0;
+									if(out->pubsync()!=0)
+										return no_room_left;
 									file_->data().seekg(0);
 									files_.push_back(file_);
 									file_.reset(new http::file());
